@@ -26,8 +26,12 @@ FAILING = ERRC | {"failed"}
 ALL_BUT_PASSED_SKIPPED = {"untested", "failed", "error"}
 
 
-def accept(children, explicit_skip=False):
-    """C03 roll-up accept-set, clause by clause (DESIGN 3.4 'roll-up accept-sets')."""
+def accept(children, explicit_skip=False, dry=False):
+    """C03 roll-up accept-set, clause by clause (DESIGN 3.4 'roll-up accept-sets'): the union of the
+    consequents of every clause of the statement whose antecedent holds (two clauses firing = the
+    statement does not say which wins). `dry`: the children come from a dry run, in which nothing is
+    executed at all, so the 'none of its contents was executed -> untested' clause fires whenever an
+    untested child exists (an `error` child is then a scenario with an undefined step)."""
     ch = list(children)
     s = set()
     if any(c in ERRC for c in ch):
@@ -36,13 +40,16 @@ def accept(children, explicit_skip=False):
         s.add("failed")
     if ch and all(c == "skipped" for c in ch):
         s.add("skipped")
-    if not s and ch and all(c in UNT or c == "skipped" for c in ch) and any(c in UNT for c in ch):
+    # an undefined step is never executed: (untested|skipped|undefined)* with an untested member = nothing executed
+    if ch and all(c in UNT or c in ("skipped", "undefined") for c in ch) and any(c in UNT for c in ch):
         s.add("untested")
     nonsk = [c for c in ch if c != "skipped"]
     if nonsk and all(c in PASSL for c in nonsk) and not s:
         s.add("passed")
     if not s:
         s = set(ALL_BUT_PASSED_SKIPPED)      # passed + untested remainder: anything but passed/skipped
+    if dry and any(c in UNT for c in ch):
+        s.add("untested")
     if explicit_skip:
         s.add("skipped")
     return s
@@ -80,6 +87,7 @@ class Ref(object):
         self.scopes = []        # stack of (layer, [cleanup (cid, raising)])
         self.info = {p: (k, i) for p, k, i in P.walk_scenarios(prog)}
         self.mechanisms = set()
+        self.fault_sites = []   # "hookname@kind" of every injected fault that fired
 
     # -- selection
     def selected(self, tags):
@@ -103,7 +111,7 @@ class Ref(object):
         return False
 
     # -- hooks / faults / cleanups
-    def hook(self, name, ref, trigger_path=None):
+    def hook(self, name, ref, kind=""):
         """returns True if the hook invocation raised"""
         if self.dry or not self.with_hooks:
             return False
@@ -114,6 +122,7 @@ class Ref(object):
                 self.add_cleanup(cid, raising, layer)
         if k in self.faults:
             self.hook_failures += 1
+            self.fault_sites.append("%s@%s" % (name, kind))
             return True
         return False
 
@@ -187,7 +196,7 @@ class Ref(object):
                 self.loose_hooks = True
             hooks_called = True
             for t in node[1]:
-                if self.hook("before_tag", ("tag", t)):
+                if self.hook("before_tag", ("tag", t), layer):
                     hook_failed = True
             if self.hook("before_" + layer, path):
                 hook_failed = True
@@ -213,7 +222,7 @@ class Ref(object):
             if self.hook("after_" + layer, path):
                 hook_failed = True
             for t in node[1]:
-                if self.hook("after_tag", ("tag", t)):
+                if self.hook("after_tag", ("tag", t), layer):
                     hook_failed = True
             if hook_failed:
                 failed_count += 1
@@ -258,7 +267,7 @@ class Ref(object):
         if not self.dry and sel:
             hooks_called = True
             for t in own:
-                if self.hook("before_tag", ("tag", t)):
+                if self.hook("before_tag", ("tag", t), "scenario"):
                     hook_failed = True
             if self.hook("before_scenario", path):
                 hook_failed = True
@@ -342,7 +351,7 @@ class Ref(object):
             if self.hook("after_scenario", path):
                 hook_failed = True
             for t in own:
-                if self.hook("after_tag", ("tag", t)):
+                if self.hook("after_tag", ("tag", t), "scenario"):
                     hook_failed = True
             if hook_failed:
                 failed = True
@@ -442,10 +451,10 @@ def compare(prog, ref, obs, what=("verdict", "steps", "calls", "status", "hooks"
             if kind in ("S", "row"):
                 acc = ref.status.get(path)
                 if acc is None:
-                    acc = accept(obs["steps"][path], path in ref.explicit_skip)
+                    acc = accept(obs["steps"][path], path in ref.explicit_skip, dry=ref.dry)
                 clause = "scenario-rollup"
             else:
-                acc = accept(children_of(prog, path, obs["status"]))
+                acc = accept(children_of(prog, path, obs["status"]), dry=ref.dry)
                 clause = "container-rollup"
             if path in ref.hook_error_elems:
                 acc = {"hook_error"}
@@ -456,7 +465,8 @@ def compare(prog, ref, obs, what=("verdict", "steps", "calls", "status", "hooks"
             if got not in acc:
                 kids = obs["steps"].get(path) if kind in ("S", "row") else children_of(prog, path, obs["status"])
                 v.append(({"subcheck": "status", "clause": clause, "kind": kind, "got": str(got),
-                           "want": "|".join(sorted(acc)), "children": "+".join(sorted(set(kids)))},
+                           "want": "|".join(sorted(acc)), "children": "+".join(sorted(set(kids))),
+                           "fault": ",".join(ref.fault_sites)},
                           "%s %r has status %s, acceptable %s; children %s (config %s)"
                           % (kind, path, got, sorted(acc), kids, cfgs)))
     if "hooks" in what and ref.with_hooks:
